@@ -33,6 +33,13 @@ const FIRST_PID: u32 = 1000;
 const FIRST_PORT: u16 = 40000;
 const DYN_LISTEN_BASE: u16 = 50000;
 const PEER: &str = "12D3KooWS2tpXGGTmg2AHFiDh57yPQnat49YHnyqoggzXZWpqkCR";
+/// the peers of the simulated network; the node of service n reports the first (n - 1) % 3 of them as
+/// connected: none for antnode1 (a just-launched / genesis node), one for antnode2, two for antnode3
+const NETWORK_PEERS: [&str; 3] = [
+    "12D3KooWS2tpXGGTmg2AHFiDh57yPQnat49YHnyqoggzXZWpqkCR",
+    "12D3KooWRi6wF7yxWLuPSNskXc6kQ5cJ6eaymeMbCRdTnMesPgFx",
+    "12D3KooWRBhwfeP2Y4TCx1SM6s9rUoHhR5STiGwxBhgFRcw3UERE",
+];
 
 struct Installed {
     program: PathBuf,
@@ -205,7 +212,9 @@ impl RpcActions for SimRpc {
             .and_then(|i| i.port)
             .unwrap_or(DYN_LISTEN_BASE + self.number);
         let addr: Multiaddr = format!("/ip4/127.0.0.1/udp/{port}/quic-v1").parse().unwrap();
-        Ok(NetworkInfo { connected_peers: vec![PeerId::from_str(PEER).unwrap()], listeners: vec![addr] })
+        let k = (self.number.max(1) as usize - 1) % 3;
+        let connected_peers = NETWORK_PEERS[..k].iter().map(|p| PeerId::from_str(p).unwrap()).collect();
+        Ok(NetworkInfo { connected_peers, listeners: vec![addr] })
     }
     async fn record_addresses(&self) -> SvcResult<Vec<RecordAddress>> {
         Ok(vec![])
@@ -299,7 +308,8 @@ fn view(reg: &NodeRegistry, sim: &Sim) -> (Value, Value) {
                 "number": n.number, "name": n.service_name, "status": status_code(&n.status),
                 "pid": n.pid, "version": version_n(&n.version), "node_port": n.node_port,
                 "metrics_port": n.metrics_port, "rpc_port": n.rpc_socket_addr.port(),
-                "peers": n.connected_peers.is_some(), "listen": n.listen_addr.is_some(),
+                "peers": n.connected_peers.is_some(), "peers_n": n.connected_peers.as_ref().map(|p| p.len()),
+                "listen": n.listen_addr.is_some(),
                 "peer_id": n.peer_id.is_some(), "first": n.peers_args.first,
                 "data_dir": sim.rel(&n.data_dir_path), "log_dir": sim.rel(&n.log_dir_path),
                 "bin": sim.rel(&n.antnode_path),
@@ -457,10 +467,10 @@ async fn run_history(case: &Value, base: &Path) -> Value {
         // registry, and CONTINUE from the file.
         let mut disk_same = true;
         if kind == "add" {
-            let mem = serde_json::to_value(&reg).unwrap();
+            let mem = format!("{reg:?}");
             match NodeRegistry::load(&reg_path) {
                 Ok(on_disk) => {
-                    disk_same = serde_json::to_value(&on_disk).unwrap() == mem;
+                    disk_same = format!("{on_disk:?}") == mem;
                     reg = on_disk;
                 }
                 Err(_) => disk_same = false,
@@ -469,10 +479,12 @@ async fn run_history(case: &Value, base: &Path) -> Value {
         // "The registry saved after each step loads back to the same state": save, reload, compare,
         // and CONTINUE with the reloaded registry
         let saved = reg.save().is_ok();
-        let before = serde_json::to_value(&reg).unwrap();
+        // field by field on the structs themselves (their Debug rendering distinguishes Some([]) from None);
+        // comparing two serialisations would push both sides through the serialiser under test
+        let before = format!("{reg:?}");
         let reload_ok = match NodeRegistry::load(&reg_path) {
             Ok(r) => {
-                let same = serde_json::to_value(&r).unwrap() == before;
+                let same = format!("{r:?}") == before;
                 reg = r;
                 saved && same
             }
